@@ -1,3 +1,267 @@
 import Ptk.Proto
--- stub: the C04 model driver has not been written yet
-def main : IO Unit := Ptk.Proto.run fun _ => "bad-op"
+import Ptk.Model.C04
+open Ptk Ptk.Py Ptk.Proto Ptk.C04
+
+/-! line-protocol driver for the C04 model (see harness/c04.py for the request grammar) -/
+
+structure DS where
+  ps : PS World := { w := {} }
+  fl : Array F := #[]             -- filter handles, in creation order
+  tmpl : Array Binding := #[]     -- `key_binding(...)(handler)` objects
+deriving Inhabited
+
+abbrev P := StateT (List String) Option
+
+def tok : P String := do
+  match (← get) with
+  | t :: ts => set ts; pure t
+  | [] => failure
+
+def pNat : P Nat := do
+  match (← tok).toNat? with
+  | some n => pure n
+  | none => failure
+
+def pBool : P Bool := do
+  match (← tok) with
+  | "1" => pure true
+  | "0" => pure false
+  | _ => failure
+
+def pOptNat : P (Option Nat) := do
+  let t ← tok
+  if t == "N" then pure none else
+  match t.toNat? with
+  | some n => pure (some n)
+  | none => failure
+
+def pList {α : Type} (p : P α) : P (List α) := do
+  let n ← pNat
+  let mut out : Array α := #[]
+  for _ in [0:n] do
+    out := out.push (← p)
+  pure out.toList
+
+/-- `T`, `X` (the bool False) or `f<handle>` -/
+def pRaw (fl : Array F) : P Raw := do
+  let t ← tok
+  if t == "T" then pure (.b true)
+  else if t == "X" then pure (.b false)
+  else if t.startsWith "f" then
+    match (t.drop 1).toString.toNat? with
+    | some i => match fl[i]? with
+      | some f => pure (.f f)
+      | none => failure
+    | none => failure
+  else failure
+
+/-- `F` or `<key>:<tag>` -/
+def pKP : P KP := do
+  let t ← tok
+  if t == "F" then pure .flush else
+  match t.splitOn ":" with
+  | [a, b] => match a.toNat?, b.toNat? with
+    | some k, some g => pure (.key k g)
+    | _, _ => failure
+  | _ => failure
+
+def pROp (d : DS) : P ROp := do
+  match (← tok) with
+  | "add" =>
+    let r ← pNat; let hid ← pNat
+    let f ← pRaw d.fl; let e ← pRaw d.fl; let g ← pRaw d.fl
+    let keys ← pList pNat
+    pure (.add r keys hid f e g)
+  | "addb" =>
+    let r ← pNat; let t ← pNat
+    let f ← pRaw d.fl; let e ← pRaw d.fl; let g ← pRaw d.fl
+    let keys ← pList pNat
+    match d.tmpl[t]? with
+    | some b => pure (.addB r keys b f e g)
+    | none => failure
+  | "rmh" => let r ← pNat; let hid ← pNat; pure (.removeH r hid)
+  | "rmk" => let r ← pNat; let keys ← pList pNat; pure (.removeK r keys)
+  | "target" => let r ← pNat; let t ← pOptNat; pure (.target r t)
+  | _ => failure
+
+def pOutcome : P Outcome := do
+  match (← tok) with
+  | "ok" => pure .ok
+  | "ro" => pure .readonly
+  | "raise" => pure .raise
+  | _ => failure
+
+def pEff (d : DS) : P Eff := do
+  let flips ← pList pNat
+  let ops ← pList (pROp d)
+  let feeds ← pList (do let first ← pBool; let kps ← pList pKP; pure (kps, first))
+  let exit ← pBool
+  let outcome ← pOutcome
+  pure { flips, ops, feeds, exit, outcome }
+
+/-! ### printing -/
+
+partial def reprF : F → String
+  | .always => "A"
+  | .never => "N"
+  | .cond _ v => s!"c{v}"
+  | .andL _ fs => "&(" ++ ",".intercalate (fs.map reprF) ++ ")"
+  | .orL _ fs => "|(" ++ ",".intercalate (fs.map reprF) ++ ")"
+  | .inv _ f => "~" ++ reprF f
+
+def reprKeys (ks : List Key) : String := ".".intercalate (ks.map toString)
+
+def reprBinding (b : Binding) : String :=
+  s!"h{b.hid}/{reprKeys b.keys}/{reprF b.filter}/{reprF b.eager}/{reprF b.isGlobal}"
+
+def reprBindings (bs : List Binding) : String := encList reprBinding bs
+
+partial def reprVer : Ver → String
+  | .num n => toString n
+  | .tup l => "(" ++ ",".intercalate (l.map reprVer) ++ ")"
+  | .dyn t v => s!"<{t};{reprVer v}>"
+
+def reprKP : KP → String
+  | .flush => "F"
+  | .key k g => s!"{k}:{g}"
+
+def reprKPs (l : List KP) : String := "[" ++ ",".intercalate (l.map reprKP) ++ "]"
+
+def reprObs : Obs → List String
+  | .pop k => [s!"P{reprKP k}"]
+  | .before => ["B"]
+  | .after => ["A"]
+  | .call h s p => [s!"C{h}{reprKPs s}{reprKPs p}"]
+  | .bell => ["L"]
+  | .drop k => [s!"D{reprKP k}"]
+  | .raise h s p => [s!"C{h}{reprKPs s}{reprKPs p}", "R"]
+
+def sameIdx (fl : Array F) (r : F) : Int :=
+  match r with
+  | .always => -1
+  | .never => -1
+  | _ => match fl.toList.findIdx? (fun f => f.same r) with
+    | some i => i
+    | none => -1
+
+def pushF (d : DS) (h : Heap) (r : F) : DS × String :=
+  let same := sameIdx d.fl r
+  let x := d.ps.w
+  ({ d with ps := { d.ps with w := { x with t := { x.t with heap := h } } }, fl := d.fl.push r },
+   s!"{reprF r} {same}")
+
+def setT (d : DS) (t : W) : DS := { d with ps := { d.ps with w := { d.ps.w with t := t } } }
+
+def procReply (d : DS) (obs : List Obs) : String :=
+  encList id (obs.flatMap reprObs) ++ s!" # {reprKPs d.ps.buffer} # {reprKPs d.ps.queue} # {reprKPs d.ps.prev}"
+
+def processFuel : Nat := 100000
+
+def stepLine (d : DS) (toks : List String) : DS × String :=
+  let x := d.ps.w
+  let bad := (d, "bad-op")
+  let run {α : Type} (p : P α) (rest : List String) : Option α :=
+    match p.run rest with
+    | some (a, []) => some a
+    | _ => none
+  match toks with
+  | ["new"] => ({}, "ok")
+  | ["cond", v] =>
+    match v.toNat? with
+    | some v => let r := mkCond x.t.heap v; pushF d r.1 r.2
+    | none => bad
+  | ["and", i, j] =>
+    match i.toNat?.bind (d.fl[·]?), j.toNat?.bind (d.fl[·]?) with
+    | some a, some b => let r := fAnd x.t.heap a b; pushF d r.1 r.2
+    | _, _ => bad
+  | ["or", i, j] =>
+    match i.toNat?.bind (d.fl[·]?), j.toNat?.bind (d.fl[·]?) with
+    | some a, some b => let r := fOr x.t.heap a b; pushF d r.1 r.2
+    | _, _ => bad
+  | ["inv", i] =>
+    match i.toNat?.bind (d.fl[·]?) with
+    | some a => let r := fInv x.t.heap a; pushF d r.1 r.2
+    | none => bad
+  | ["tof", b] =>
+    match decBool b with
+    | some b => pushF d x.t.heap (toFilter b)
+    | none => bad
+  | ["ev", i] =>
+    match i.toNat?.bind (d.fl[·]?) with
+    | some a => (d, encBool (a.eval (envFn x.t.env)))
+    | none => bad
+  | ["flip", v] =>
+    match v.toNat? with
+    | some v => (setT d { x.t with env := flipEnv x.t.env v }, "ok")
+    | none => bad
+  | ["setdone", b] =>
+    match decBool b with
+    | some b => ({ d with ps := { d.ps with w := { x with done := b } } }, "ok")
+    | none => bad
+  | "mk" :: rest =>
+    let mk : Option Mk := match rest with
+      | ["kb"] => some .kb
+      | ["cond", c, f] => do
+        let c ← c.toNat?
+        let f ← run (pRaw d.fl) [f]
+        pure (.cond c f)
+      | "merged" :: cs => (run (pList pNat) cs).map .merged
+      | ["dyn", t] => (run pOptNat [t]).map .dyn
+      | ["glob", c] => c.toNat?.map .glob
+      | _ => none
+    match mk.bind (mkReg x.t) with
+    | some t => (setT d t, "ok")
+    | none => bad
+  | "tmpl" :: rest =>
+    match run (do let hid ← pNat; let f ← pRaw d.fl; let e ← pRaw d.fl; let g ← pRaw d.fl
+                  pure ({ keys := [], hid := hid, filter := f.toF, eager := e.toF,
+                          isGlobal := g.toF } : Binding)) rest with
+    | some b => ({ d with tmpl := d.tmpl.push b }, "ok")
+    | none => bad
+  | "op" :: rest =>
+    match run (pROp d) rest with
+    | some op => let r := applyROp x.t op; (setT d r.1, if r.2 then "ok" else "fail")
+    | none => bad
+  | "for" :: r :: rest =>
+    match r.toNat?, run (pList pNat) rest with
+    | some r, some keys => let q := x.t.fns.getFor x.t r keys; (setT d q.1, reprBindings q.2)
+    | _, _ => bad
+  | "start" :: r :: rest =>
+    match r.toNat?, run (pList pNat) rest with
+    | some r, some keys => let q := x.t.fns.getStart x.t r keys; (setT d q.1, reprBindings q.2)
+    | _, _ => bad
+  | ["bindings", r] =>
+    match r.toNat? with
+    | some r => let q := x.t.fns.bindings x.t r; (setT d q.1, reprBindings q.2)
+    | none => bad
+  | ["version", r] =>
+    match r.toNat? with
+    | some r => let q := x.t.fns.version x.t r; (setT d q.1, reprVer q.2)
+    | none => bad
+  | "handler" :: hid :: rest =>
+    match hid.toNat?, run (pList (pEff d)) rest with
+    | some hid, some effs =>
+      let sc := if hid < x.scripts.length then x.scripts.set hid effs
+                else x.scripts ++ List.replicate (hid - x.scripts.length) [] ++ [effs]
+      ({ d with ps := { d.ps with w := { x with scripts := sc } } }, "ok")
+    | _, _ => bad
+  | ["proc", r] =>
+    match r.toNat? with
+    | some r => ({ d with ps := { w := { x with root := r } } }, "ok")
+    | none => bad
+  | "feed" :: first :: rest =>
+    match decBool first, run (pList pKP) rest with
+    | some first, some kps =>
+      ({ d with ps := { d.ps with queue := feedMultiple d.ps.queue kps first } }, "ok")
+    | _, _ => bad
+  | ["process"] =>
+    let r := processKeys worldIface processFuel d.ps
+    let d' := { d with ps := r.1 }
+    (d', procReply d' r.2.1)
+  | ["reset"] => ({ d with ps := resetPS d.ps }, "ok")
+  | ["emptyq"] =>
+    let r := emptyQueue d.ps
+    ({ d with ps := r.1 }, reprKPs r.2)
+  | _ => bad
+
+def main : IO Unit := runS stepLine {}
